@@ -453,8 +453,21 @@ def nrm_check(case, R=None):
             res = normalize_opb(con)
             N = maxabs
         else:
-            F = _classes()['OPB']()
-            F.add_constraint(con)
+            if via == 'add_constraint':
+                F = _classes()['OPB']()
+                F.add_constraint(con)
+            elif via == 'add_constraints_from':
+                F = _classes()['OPB']()
+                F.add_constraints_from([con])
+            else:                                   # 'constructor'
+                F = _classes()['OPB']([con])
+            if via != 'add_constraint' or (d + len(terms)) % 2 == 0:
+                # the caller goes on using its own list (a template edited for
+                # the next constraint): what was inserted must not follow
+                con[-1] = d + 1
+                if terms:
+                    con[0] = (terms[0][0] + 1, -terms[0][1])
+                con.append('edited')
             N = F.number_of_variables()
             if len(F) != 1:
                 bad('count', 'one constraint added, formula has %d' % len(F))
@@ -515,6 +528,9 @@ def nrm_cases(g, tier):
         for d in degs:
             for via in ('normalize_opb', 'add_constraint'):
                 yield {'part': 'nrm', 'terms': g['terms'], 'op': op, 'd': d, 'via': via}
+            if d % 3 == 0:
+                for via in ('add_constraints_from', 'constructor'):
+                    yield {'part': 'nrm', 'terms': g['terms'], 'op': op, 'd': d, 'via': via}
 
 
 # ================================================================== map ===
